@@ -41,3 +41,11 @@ claim('C18', 'proof',
       'trusted: npvc encoder; z3; get_params/set_params/clone are scikit-learn BaseEstimator introspection (assumed; they work iff every parameter is stored under its own name, the clause proved); pickle is CPython (bounded only)',
       'symbolic execution of the constructors with opaque (identity-only) arguments',
       ['get_params/set_params/clone are scikit-learn BaseEstimator introspection (assumed)', 'pickle is CPython (not verified)'])
+claim('C04', 'proof',
+      'predict / decision_function / score / set_threshold of the three tuple-classifier mixins are executed symbolically from the real source; every clause of the property is proved at a generic batch index, '
+      'ties included: pairs predict = +1 iff d <= threshold_, decision = -d, score = roc_auc_score(y, decision); triplets decision = d(a,c)-d(a,b), predict = +1 iff d(a,b) < d(a,c), score = fraction predicted +1; '
+      'quadruplets decision = d(c,d)-d(a,b), predict = sign; swap and monotonicity lemmas from the contracts.',
+      'trusted: npvc encoder; z3; A-real; pair_score / check_input used through their contracts (verified in C01/C06); roc_auc_score is scikit-learn (uninterpreted); numpy comparison/sign/mean semantics (assumed, pointwise axioms)',
+      'symbolic execution at a generic batch index + lemmas over contracts', ['roc_auc_score is scikit-learn (uninterpreted function of labels and decision values)'])
+META['C03'] = dict(level='proof', level_text='', level_note='', explanation='wip', assumptions=[], technique=TECH)
+META['C05'] = dict(level='proof', level_text='', level_note='', explanation='wip', assumptions=[], technique=TECH)
